@@ -76,6 +76,18 @@ func Farm() *TLSFarm {
 		os.WriteFile(filepath.Join(d, "client.crt"), PEMCert(der), 0o644)
 		// the same client certificate followed by its issuer (a leaf + chain bundle, as many deployments ship it)
 		os.WriteFile(filepath.Join(d, "client-chain.crt"), append(PEMCert(der), PEMCert(f.cas["caClients"].Raw)...), 0o644)
+		// a second client certificate for the same key, issued by an INTERMEDIATE CA under caClients; the
+		// file holds leaf + intermediate (the root stays with the servers)
+		intc, intDER, err := MakeCert(CertSpec{CN: "verif client intermediate", Key: "p384a", IsCA: true, Issuer: f.cas["caClients"], IssuerKey: caKeys["caClients"], Serial: 22})
+		if err != nil {
+			panic(err)
+		}
+		_, leaf2, err := MakeCert(CertSpec{CN: "verif ysshra client (via intermediate)", Key: "p256b", Issuer: intc, IssuerKey: "p384a", Serial: 23,
+			Mutate: func(t *x509.Certificate) { t.ExtKeyUsage = []x509.ExtKeyUsage{x509.ExtKeyUsageClientAuth} }})
+		if err != nil {
+			panic(err)
+		}
+		os.WriteFile(filepath.Join(d, "client-int-chain.crt"), append(PEMCert(leaf2), PEMCert(intDER)...), 0o644)
 		kb, _ := x509.MarshalPKCS8PrivateKey(Key("p256b"))
 		os.WriteFile(filepath.Join(d, "client.key"), pem.EncodeToMemory(&pem.Block{Type: "PRIVATE KEY", Bytes: kb}), 0o600)
 		// The "foreign" CA is the one CA this process's HOST trust store trusts (crypto/x509 loads the
@@ -98,6 +110,19 @@ func (f *TLSFarm) ClientKeyFile() string  { return filepath.Join(f.Dir, "client.
 
 // ClientChainFile is the client certificate followed by the certificate of the CA that issued it.
 func (f *TLSFarm) ClientChainFile() string { return filepath.Join(f.Dir, "client-chain.crt") }
+
+// ClientIntChainFile is a client certificate issued by an intermediate CA, followed by that intermediate.
+func (f *TLSFarm) ClientIntChainFile() string { return filepath.Join(f.Dir, "client-int-chain.crt") }
+
+// LeafDER returns the DER of the first certificate of a PEM file.
+func LeafDER(file string) []byte {
+	b, _ := os.ReadFile(file)
+	blk, _ := pem.Decode(b)
+	if blk == nil {
+		return nil
+	}
+	return blk.Bytes
+}
 
 // ClientCertDER returns the DER of the configured client certificate.
 func (f *TLSFarm) ClientCertDER() []byte {
